@@ -288,13 +288,34 @@ func SendSites(fn *ssa.Function) []SendSite {
 		}
 		for _, hs := range directSendSites(g) {
 			ci, xi := paramIndexOf(g, hs.Chan), paramIndexOf(g, hs.X)
-			if ci < 0 || xi < 0 || ci >= len(c.Call.Args) || xi >= len(c.Call.Args) {
+			if ci >= 0 && xi >= 0 && ci < len(c.Call.Args) && xi < len(c.Call.Args) {
+				out = append(out, SendSite{Fn: fn, Instr: in, Chan: c.Call.Args[ci], X: c.Call.Args[xi], InSelect: hs.InSelect, NonBlocking: hs.NonBlocking, SelIndex: hs.SelIndex, Via: g})
 				continue
 			}
-			out = append(out, SendSite{Fn: fn, Instr: in, Chan: c.Call.Args[ci], X: c.Call.Args[xi], InSelect: hs.InSelect, NonBlocking: hs.NonBlocking, SelIndex: hs.SelIndex, Via: g})
+			// a method of the same object sending on one of its fields (f.signal()):
+			// the channel is named by the helper's own field address, the value is
+			// the argument, a constant, or the helper's value
+			if ci < 0 && g.Signature.Recv() != nil && fn.Signature.Recv() != nil && len(c.Call.Args) > 0 && len(fn.Params) > 0 &&
+				ssax.Strip(c.Call.Args[0]) == ssa.Value(fn.Params[0]) && fieldRootedAt(hs.Chan, g.Params[0]) {
+				x := hs.X
+				if xi >= 0 && xi < len(c.Call.Args) {
+					x = c.Call.Args[xi]
+				}
+				out = append(out, SendSite{Fn: fn, Instr: in, Chan: hs.Chan, X: x, InSelect: hs.InSelect, NonBlocking: hs.NonBlocking, SelIndex: hs.SelIndex, Via: g})
+			}
 		}
 	})
 	return out
+}
+
+// fieldRootedAt: v is (a load of) a field of the object p points to.
+func fieldRootedAt(v ssa.Value, p *ssa.Parameter) bool {
+	v = ssax.Strip(v)
+	if u, ok := v.(*ssa.UnOp); ok && u.Op == token.MUL {
+		v = u.X
+	}
+	fa, ok := v.(*ssa.FieldAddr)
+	return ok && ssax.Strip(fa.X) == ssa.Value(p)
 }
 
 func paramIndexOf(fn *ssa.Function, v ssa.Value) int {
@@ -335,6 +356,30 @@ type RecvSite struct {
 	InSelect    bool
 	NonBlocking bool
 	SelIndex    int
+}
+
+// RecvSitesLifted: the receives of fn plus those of methods of the same object
+// it calls (f.drainSignal()): such a call is a receive site of fn on the
+// helper's field address.
+func RecvSitesLifted(fn *ssa.Function) []RecvSite {
+	out := RecvSites(fn)
+	ssax.Instrs(fn, func(in ssa.Instruction) {
+		c, ok := in.(*ssa.Call)
+		if !ok {
+			return
+		}
+		g := c.Call.StaticCallee()
+		if g == nil || g == fn || g.Pkg != fn.Pkg || len(g.Blocks) == 0 || g.Signature.Recv() == nil || fn.Signature.Recv() == nil ||
+			len(c.Call.Args) == 0 || len(fn.Params) == 0 || ssax.Strip(c.Call.Args[0]) != ssa.Value(fn.Params[0]) {
+			return
+		}
+		for _, rs := range RecvSites(g) {
+			if fieldRootedAt(rs.Chan, g.Params[0]) {
+				out = append(out, RecvSite{Fn: fn, Instr: in, Chan: rs.Chan, InSelect: rs.InSelect, NonBlocking: rs.NonBlocking, SelIndex: -1})
+			}
+		}
+	})
+	return out
 }
 
 func RecvSites(fn *ssa.Function) []RecvSite {
@@ -1153,7 +1198,7 @@ var canonicalFields = map[string]map[string]string{ // owner → canonical name 
 	"fAdapterTransport":         {"closeSignal": "chan struct{}", "closeChan": "chan error", "monitorCloseSignal": "chan<- error", "isOpen": "bool", "mu": "sync.RWMutex"},
 	"fNatsServer":               {"workerCount": "uint", "workC": "chan *frugal.frameWrapper", "quit": "chan chan<- error"},
 	"FBaseProcessor":            {"processMap": "map[string]frugal.FProcessorFunction", "writeMu": "sync.Mutex"},
-	"FBaseProcessorFunction":    {"writeMu": "*sync.Mutex"},
+	"FBaseProcessorFunction":    {"writeMu": "*sync.Mutex", "handler": "*frugal.Method"},
 	"FContextImpl":              {"mu": "sync.RWMutex"},
 	"fRegistryImpl":             {"mu": "sync.RWMutex"},
 	"TFramedTransport":          {"mu": "sync.Mutex"},
